@@ -47,13 +47,20 @@ class Extract:
         if f.cls == MODEL_CLASS:
             recv["self"] = MODEL_CLASS
         self.recv = recv
+        n0 = len(self.A.call_log)
         try:
             v, _env = self.A.returned(f)
         except Exception as e:  # evaluation failures are 'not understood', never a verdict
             self.unknown.append(f"evaluation failed: {type(e).__name__}: {e}")
             return self
         vals = [v]
-        # template calls whose result does not reach the return value (none today) would be in the call log
+        # calls whose result does not reach the return value in a form the evaluator keeps (a matrix that is then
+        # rewritten in a while loop) are in the call log
+        for _caller, _node, cv in self.A.call_log[n0:]:
+            if cv[0] == "call" and cv[1].split(".")[-1] == "Matrix":
+                vals.append(cv)
+            elif cv[0] == "mcall" and av.show(cv[1]).endswith("template"):
+                vals.append(cv)
         self.anchor = f.node
         seen = set()
         for val in vals:
@@ -155,6 +162,15 @@ class Extract:
             if text.startswith("ode."):
                 text = "ODE." + text[4:]
             text = text.replace("(ode.", "(ODE.").replace(" ode.", " ODE.")
+            if text.startswith("(") and text.endswith(")") and text.count("(") == text.count(")"):
+                inner = text[1:-1]
+                depth, ok = 0, True
+                for ch in inner:
+                    depth += ch == "("
+                    depth -= ch == ")"
+                    ok = ok and depth >= 0
+                if ok:
+                    text = inner
             for fam, texts in SIZE_CLASSES.items():
                 if text in texts:
                     return fam
@@ -184,7 +200,7 @@ class Extract:
         if t == "comp":
             d = seq[1]
             inner = self.desc_of(seq[2], depth + 1)
-            filters = list(inner.filters) + [self.canon_filter(c, d) for c in seq[4]]
+            filters = list(inner.filters) + [self.canon_filter(c, d) for c in seq[4] if c != av.C(True)]
             maps = inner.maps
             if len(seq[3]) != 1 or seq[3][0][0] in ("spread", "when", "kv", "kadd"):
                 return Desc(base=av.show(seq)[:80], opaque=True, unknown=True)
